@@ -114,6 +114,10 @@ func (l *lexer) acceptNumeric(ttype int) bool {
 	first := true
 	for {
 		r := l.next()
+		if first && r == '-' && unicode.IsDigit(l.peek()) {
+			// negative number
+			continue
+		}
 		if unicode.IsDigit(r) || (!first && r == '.') {
 			first = false
 		} else {
